@@ -263,6 +263,87 @@ func (sa *Safe) sliceResult(fr *frame, st *State, t types.Type, desc string, ln 
 	return r
 }
 
+// bufPtr unwraps an argument that is (an interface holding) a pointer to a modelled bytes.Buffer.
+func bufPtr(v AVal) (AVal, bool) {
+	if v.Kind == avIface && v.Inner != nil {
+		v = *v.Inner
+	}
+	if v.Kind == avPtr && v.Obj != nil && isReaderType(v.Type) {
+		return v, true
+	}
+	return v, false
+}
+
+func (sa *Safe) bufLen(fr *frame, st *State, b AVal) *Lin {
+	if m := st.mem[b.Obj]; m != nil {
+		if v, ok := m[b.Path+".len"]; ok && v.Lin != nil {
+			return v.Lin
+		}
+	}
+	return nil
+}
+
+func (sa *Safe) setBufLen(st *State, b AVal, l *Lin) {
+	if st.mem[b.Obj] == nil {
+		st.mem[b.Obj] = map[string]AVal{}
+	}
+	if l == nil {
+		delete(st.mem[b.Obj], b.Path+".len")
+		return
+	}
+	st.mem[b.Obj][b.Path+".len"] = AVal{Kind: avInt, Lin: l, Type: types.Typ[types.Int]}
+}
+
+// bufShrink: after a read the remaining length is some value in [0, old].
+func (sa *Safe) bufShrink(fr *frame, st *State, b AVal) {
+	old := sa.bufLen(fr, st, b)
+	n := sa.boundedAtom(fr, st, types.Typ[types.Int], "remaining("+b.Obj.Desc+")", Itv{0, posInf})
+	if old != nil {
+		st.assume(n.Lin.add(old, -1))
+	}
+	sa.setBufLen(st, b, n.Lin)
+}
+
+// wireSize: number of octets binary.Write emits for a value (nil if unknown).
+func (sa *Safe) wireSize(st *State, v AVal, t types.Type) *Lin {
+	if v.Kind == avIface && v.Inner != nil {
+		return sa.wireSize(st, *v.Inner, v.DynT[0])
+	}
+	switch u := t.Underlying().(type) {
+	case *types.Basic:
+		if u.Info()&(types.IsInteger|types.IsBoolean) != 0 && u.Kind() != types.Int && u.Kind() != types.Uint {
+			return linConst(sa.w.sizeOf(t))
+		}
+	case *types.Slice:
+		if v.Len != nil {
+			if b, ok := u.Elem().Underlying().(*types.Basic); ok && b.Info()&types.IsInteger != 0 {
+				return v.Len.scale(sa.w.sizeOf(u.Elem()))
+			}
+		}
+	case *types.Pointer:
+		switch e := u.Elem().Underlying().(type) {
+		case *types.Basic:
+			if e.Info()&(types.IsInteger|types.IsBoolean) != 0 && e.Kind() != types.Int && e.Kind() != types.Uint {
+				return linConst(sa.w.sizeOf(u.Elem()))
+			}
+		case *types.Array:
+			return linConst(sa.w.sizeOf(u.Elem()))
+		case *types.Slice:
+			// *[]byte: length of the pointed-to slice
+			if v.Kind == avPtr && v.Obj != nil {
+				if m := st.mem[v.Obj]; m != nil {
+					if sv, ok := m[v.Path]; ok && sv.Len != nil {
+						return sv.Len
+					}
+				}
+			}
+		}
+	case *types.Array:
+		return linConst(sa.w.sizeOf(t))
+	}
+	return nil
+}
+
 func (sa *Safe) stdlib(fr *frame, st *State, x *ssa.Call, callee *ssa.Function, name string, args []AVal) callResult {
 	desc := exprText(x)
 	sig := callee.Signature
@@ -273,9 +354,18 @@ func (sa *Safe) stdlib(fr *frame, st *State, x *ssa.Call, callee *ssa.Function, 
 	case "bytes.NewBuffer", "bytes.NewReader", "bytes.NewBufferString":
 		o := sa.mObj(fr, desc, false)
 		v := AVal{Kind: avPtr, Obj: o, NonNil: true, Type: sig.Results().At(0).Type()}
+		sa.havoc(st, o, "")
+		if args[0].Len != nil {
+			sa.setBufLen(st, v, args[0].Len)
+		}
 		return one(v)
 	case "(*bytes.Buffer).Len", "(*bytes.Reader).Len":
 		sa.needNonNil(fr, st, args[0], exprText(x.Call.Args[0]), x.Pos())
+		if b, ok := bufPtr(args[0]); ok {
+			if l := sa.bufLen(fr, st, b); l != nil {
+				return one(AVal{Kind: avInt, Lin: l, Type: types.Typ[types.Int]})
+			}
+		}
 		return one(sa.boundedAtom(fr, st, types.Typ[types.Int], desc, Itv{0, posInf}))
 	case "(*bytes.Buffer).Next":
 		sa.needNonNil(fr, st, args[0], exprText(x.Call.Args[0]), x.Pos())
@@ -284,9 +374,17 @@ func (sa *Safe) stdlib(fr *frame, st *State, x *ssa.Call, callee *ssa.Function, 
 		if args[1].Lin != nil {
 			st.assume(ln.Lin.add(args[1].Lin, -1))
 		}
+		if b, ok := bufPtr(args[0]); ok {
+			sa.bufShrink(fr, st, b)
+		}
 		return one(sa.sliceResult(fr, st, sig.Results().At(0).Type(), desc, ln.Lin, false))
 	case "(*bytes.Buffer).Bytes":
 		sa.needNonNil(fr, st, args[0], exprText(x.Call.Args[0]), x.Pos())
+		if b, ok := bufPtr(args[0]); ok {
+			if l := sa.bufLen(fr, st, b); l != nil {
+				return one(sa.sliceResult(fr, st, sig.Results().At(0).Type(), desc, l, false))
+			}
+		}
 		return one(sa.sliceResult(fr, st, sig.Results().At(0).Type(), desc, nil, false))
 	case "(*bytes.Buffer).String":
 		return one(sa.freshM(fr, st, types.Typ[types.String], desc, nilMaybe))
@@ -297,13 +395,36 @@ func (sa *Safe) stdlib(fr *frame, st *State, x *ssa.Call, callee *ssa.Function, 
 		sa.needNonNil(fr, st, args[0], exprText(x.Call.Args[0]), x.Pos())
 		if strings.HasSuffix(name, ".Read") {
 			sa.havocElems(st, args[1])
+			if b, ok := bufPtr(args[0]); ok {
+				sa.bufShrink(fr, st, b)
+			}
+		} else if b, ok := bufPtr(args[0]); ok {
+			if l := sa.bufLen(fr, st, b); l != nil && args[1].Len != nil {
+				sa.setBufLen(st, b, l.add(args[1].Len, 1))
+			} else {
+				sa.setBufLen(st, b, nil)
+			}
 		}
 		return callResult{st: st, vals: []AVal{sa.boundedAtom(fr, st, types.Typ[types.Int], desc, Itv{0, posInf}), sa.errResult(fr, st, desc+".err")}}
 	case "(*bytes.Buffer).WriteByte":
 		sa.needNonNil(fr, st, args[0], exprText(x.Call.Args[0]), x.Pos())
+		if b, ok := bufPtr(args[0]); ok {
+			if l := sa.bufLen(fr, st, b); l != nil {
+				sa.setBufLen(st, b, l.addConst(1))
+			}
+		}
 		return one(sa.errResult(fr, st, desc+".err"))
 	case "(*bytes.Buffer).ReadFrom":
 		sa.needNonNil(fr, st, args[0], exprText(x.Call.Args[0]), x.Pos())
+		if b, ok := bufPtr(args[0]); ok {
+			l := sa.bufLen(fr, st, b)
+			if src, ok2 := bufPtr(args[1]); ok2 && l != nil && sa.bufLen(fr, st, src) != nil {
+				sa.setBufLen(st, b, l.add(sa.bufLen(fr, st, src), 1))
+				sa.setBufLen(st, src, linConst(0))
+			} else {
+				sa.setBufLen(st, b, nil)
+			}
+		}
 		return callResult{st: st, vals: []AVal{sa.boundedAtom(fr, st, types.Typ[types.Int64], desc, Itv{0, posInf}), sa.errResult(fr, st, desc+".err")}}
 	case "(*bytes.Buffer).Reset":
 		return none()
@@ -322,8 +443,23 @@ func (sa *Safe) stdlib(fr *frame, st *State, x *ssa.Call, callee *ssa.Function, 
 		default:
 			sa.unsup(x.Pos(), "binary.Read into an untracked target in %s", fr.fn.String())
 		}
+		if b, ok := bufPtr(args[0]); ok {
+			sa.bufShrink(fr, st, b)
+		}
 		return one(sa.errResult(fr, st, desc))
 	case "encoding/binary.Write":
+		if b, ok := bufPtr(args[0]); ok {
+			l := sa.bufLen(fr, st, b)
+			var sz *Lin
+			if l != nil {
+				sz = sa.wireSize(st, args[2], x.Call.Args[2].Type())
+			}
+			if l != nil && sz != nil {
+				sa.setBufLen(st, b, l.add(sz, 1))
+			} else {
+				sa.setBufLen(st, b, nil)
+			}
+		}
 		return one(sa.errResult(fr, st, desc))
 	case "(encoding/binary.bigEndian).Uint16", "(encoding/binary.bigEndian).Uint32", "(encoding/binary.bigEndian).Uint64",
 		"(encoding/binary.littleEndian).Uint16", "(encoding/binary.littleEndian).Uint32":
